@@ -45,9 +45,9 @@ ASSUMPTIONS = [
 ]
 FLOORS = {
     "quick": {"distinct_nontrivial": 15000, "percent_cases": 15000, "format_cases": 3000, "cpython_raised": 1000, "cpython_ok": 1000,
-              "union_cases": 1, "nested_spec_cases": 1, "r4_probe_checked": 1},
+              "union_cases": 2300, "nested_spec_cases": 4000, "r4_probe_checked": 2500},
     "thorough": {"distinct_nontrivial": 150000, "percent_cases": 150000, "format_cases": 20000,
-                 "union_cases": 1, "nested_spec_cases": 1, "r4_probe_checked": 1},
+                 "union_cases": 10000, "nested_spec_cases": 8000, "r4_probe_checked": 13000},
 }
 CODES = {"bad_format_string", "incompatible_call", "incompatible_argument"}
 BATCH = 250
